@@ -535,10 +535,10 @@ func mixString(m map[string]int) string {
 var reScnDir = regexp.MustCompile(`/lsmc-[0-9]+/b[0-9]+/[0-9]+`)
 
 // The file replica client stages uploads in "<name>.ltx.<pid>.<seq>.tmp": the pid differs between worker
-// processes, the per-process sequence number does not.
-var reTmpPid = regexp.MustCompile(`(\.ltx)\.[0-9]+\.([0-9]+\.tmp)`)
+// processes. Whatever stands between ".ltx" and ".tmp" (pid, counter, random suffix) is not compared.
+var reTmpPid = regexp.MustCompile(`(\.ltx)\.[^/ ]*\.tmp`)
 
-func normTmp(p string) string { return reTmpPid.ReplaceAllString(p, "$1.PID.$2") }
+func normTmp(p string) string { return reTmpPid.ReplaceAllString(p, "$1.UNIQ.tmp") }
 
 // normTraceAny normalises counted calls: syscall name + path with the scenario directory prefix removed.
 func normTraceAny(tr []TraceLine) []string {
